@@ -419,6 +419,46 @@ func runC15(c *Ctx, r *Report) {
 		}
 		r.Check(good, "C15.R3", ssaFuncName(ef), "EOLEOF returns EOLT in line mode and EOFT otherwise", c.Pos(ef.Pos()), "the end marker does not depend on the lexer mode as documented")
 	}
+	// the open string is asked about after the last token was read: from every token shift / statement parse of
+	// ParseProgram every path to a return passes the OpenString() call (the lexer only knows about the open
+	// string once it got there; two tokens are read when ParseProgram starts)
+	if open := c.FnOpt("lexer", "Lexer.OpenString"); open != nil {
+		pp := c.SSAFn(c.Fn("parser", "Parser.ParseProgram"))
+		shifts := callsIn(pp, c.Fn("parser", "Parser.nextToken"), c.Fn("parser", "Parser.parseStatement"))
+		for i, sh := range shifts {
+			// (a return on the `statement == nil` edge is the error / continuation path: something was reported)
+			failed := func(b *ssa.BasicBlock) bool {
+				for _, cc := range controlling(b) {
+					bin, ok := cc.Cond.(*ssa.BinOp)
+					if !ok || !isNilConst(bin.Y) {
+						continue
+					}
+					if call, ok := bin.X.(*ssa.Call); ok && isCallTo(call, c.Fn("parser", "Parser.parseStatement")) {
+						if (bin.Op == token.EQL && cc.Edge == 0) || (bin.Op == token.NEQ && cc.Edge == 1) {
+							return true
+						}
+					}
+				}
+				return false
+			}
+			bad := mustPassBefore(sh.(ssa.Instruction), func(x ssa.Instruction) bool { return isCallTo(x, open) }, func(x ssa.Instruction) bool {
+				_, isRet := x.(*ssa.Return)
+				return isRet && !failed(x.Block())
+			})
+			desc := "the open string is asked about after the last token read"
+			if i > 0 {
+				desc += " #" + itoa(i+1)
+			}
+			if bad != nil {
+				r.Fail("C15.R3", ssaFuncName(pp), desc, c.Pos(sh.Pos()), "ParseProgram can read tokens and return without asking the lexer whether the input ended inside a string afterwards: an unterminated string that is not among the first two tokens of the input (x = 1; \"abc) is silently accepted in line mode instead of asking for the rest", c.tracePath(bad)...)
+			} else {
+				r.Ok("C15.R3", ssaFuncName(pp), desc, c.Pos(sh.Pos()))
+			}
+		}
+		if len(shifts) == 0 {
+			r.Undecided("C15.R3: no token shift found in ParseProgram")
+		}
+	}
 	r.Floor("C15.R3", 2)
 
 	// shared C09.R7: each input's macro bodies are evaluated under that input's context
